@@ -125,6 +125,19 @@ Theorem C02_redis_linearizable_fuel : forall now clk tr z,
 Proof. exact redis_linearizable_fuel. Qed.
 Print Assumptions C02_redis_linearizable_fuel.
 
+(** PutMany with an expiring record is outside [op_ok]: in the Go code and in the model it is a loop of Put calls --
+    per-key effects only.  After the NewID calls of the abandoned MSET preparation its program IS the chain of
+    the Put programs of its records (each of which, as a call of its own, is covered by the theorem above) *)
+Theorem C02_putmany_is_puts : forall pre k v x suf nx,
+  Forall (fun r : key * value * option Z => snd r = None) pre ->
+  burn (length pre) nx (rk_putmany (pre ++ (k, v, Some x) :: suf)) = puts_prog (pre ++ (k, v, Some x) :: suf).
+Proof. exact putmany_is_puts. Qed.
+Print Assumptions C02_putmany_is_puts.
+
+Example C02_ex_puts_prog : forall k v e t,
+  puts_prog ((k, v, e) :: t) = put_prog k v e (fun _ => puts_prog t) /\ rk_put k v e = put_prog k v e (fun r => Ret (ORec r)).
+Proof. intros. split; reflexivity. Qed.
+
 (** the heart of CasByVersion: whatever another connection [c] does, connection [t] either still finds the
     entry its GET returned under the key it WATCHes, or is marked -- so an EXEC that is not refused replaces
     exactly the record whose version was compared *)
